@@ -41,13 +41,18 @@ SYN_DEPLOY = [
     {"pat": "undo a", "timeout": 11, "answers": ["Y"], "kids": []},
     {"pat": "route-policy *", "timeout": 13, "answers": [], "kids": []},
     {"pat": "commit", "timeout": 77, "answers": [], "kids": []},
+    # rules that apply only to commands whose patching rule carries one of the listed contexts (%ifcontext: ANY of them)
+    {"pat": "crypto ~", "timeout": 60, "answers": ["yes", "2048"], "ifctx": ["mode:a", "mode:b"], "kids": []},
+    {"pat": "bgp *", "timeout": 33, "answers": [], "kids": [
+        {"pat": "shutdown", "timeout": 21, "answers": ["Y"], "ifctx": ["kind:lag", "kind:phys"], "kids": []},
+        {"pat": "shutdown", "timeout": 5, "answers": [], "kids": []}]},
 ]
 
 
 def deploy_text(rules, depth=0):
     out = []
     for r in rules:
-        out.append("    " * depth + r["pat"] + "  %%timeout=%d" % r["timeout"])
+        out.append("    " * depth + r["pat"] + "  %%timeout=%d" % r["timeout"] + ("  %ifcontext=" + ",".join(r["ifctx"]) if r.get("ifctx") else ""))
         for k, a in enumerate(r["answers"]):
             out.append("    " * (depth + 1) + "dialog: question %d? ::: %s" % (k, a))
         out += deploy_text(r["kids"], depth + 1)
@@ -57,7 +62,8 @@ def deploy_text(rules, depth=0):
 def deploy_json(rules):
     def toks(p):
         return [{"t": "star"} if w == "*" else {"t": "tilde"} if w == "~" else {"t": "lit", "w": w, "wl": w.lower()} for w in p.split()]
-    return [{"pat": toks(r["pat"]), "timeout": r["timeout"], "answers": r["answers"], "kids": deploy_json(r["kids"])} for r in rules]
+    return [{"pat": toks(r["pat"]), "timeout": r["timeout"], "answers": r["answers"], "ifctx": [e.split(":") for e in r.get("ifctx", [])],
+             "kids": deploy_json(r["kids"])} for r in rules]
 
 
 def build_pt(items):
@@ -66,9 +72,9 @@ def build_pt(items):
     for it in items:
         row = " ".join(it["row"])
         if it["block"]:
-            t.add_block(row, build_pt(it["kids"]), {})
+            t.add_block(row, build_pt(it["kids"]), dict(it.get("ctx", {})))
         else:
-            t.add(row, {})
+            t.add(row, dict(it.get("ctx", {})))
     return t
 
 
@@ -97,11 +103,12 @@ def observe(hw, vclass, pt, do_commit, do_finalize, drules, judge_params, check_
     shown = lex_patch(fmt.patch(pt), "  ")
     cmd_paths = fmt0.cmd_paths(pt)
     paths = [[c.split() for c in p] for p in cmd_paths]
+    ctxs = [[[k, v] for k, v in (c or {}).items()] for c in cmd_paths.values()]
     cl = deploy.apply_deploy_rulebook(hw, cmd_paths, do_finalize=do_finalize, do_commit=do_commit)
     sent = [{"d": c.level, "row": c.cmd.split(), "timeout": int(c.timeout) if c.timeout is not None else -1,
              "answers": [q.answer for q in (c.questions or [])]} for c in cl]
     return {"v": vclass, "pt": pt_json(pt), "shown": shown, "paths": paths, "sent": sent, "docommit": do_commit, "dofinalize": do_finalize,
-            "drules": drules, "judgeParams": judge_params, "checkModel": check_model}
+            "drules": drules, "ctxs": ctxs, "judgeParams": judge_params, "checkModel": check_model}
 
 
 def run(ctx):
@@ -233,9 +240,9 @@ def run(ctx):
                 emit("synth-%s" % vend, hw, vclass, p, dc, df, [], False, False)
     # ---- random deeper trees (depth <= 4), distinct sibling rows
     words0 = [["interface", "x"], ["interface", "y"], ["xpl", "as-path-list", "L"], ["xpl", "route-filter", "F"], ["address-family", "ipv6"],
-              ["prefix-set", "P"], ["route-policy", "R"], ["undo", "a"], ["rsa", "peer-public-key", "k"], ["bgp", "1"]]
+              ["prefix-set", "P"], ["route-policy", "R"], ["undo", "a"], ["rsa", "peer-public-key", "k"], ["bgp", "1"], ["crypto", "key", "gen"]]
     words1 = [["b", "1"], ["b", "2"], ["if", "c", "then"], ["elseif", "e", "then"], ["else"], ["undo", "d"], ["peer", "1"],
-              ["address-family", "ipv4"], ["ip", "x"]]    # no row equal to a vendor exit word: it would duplicate the generated exit command
+              ["address-family", "ipv4"], ["ip", "x"], ["shutdown"]]    # no row equal to a vendor exit word: it would duplicate the generated exit command
 
     def rtree(depth):
         rows = rnd.sample(words0 if depth == 0 else words1, rnd.randint(1, 3))
@@ -244,7 +251,11 @@ def run(ctx):
         out = []
         for rw in rows:
             blk = rnd.random() < 0.5 and depth < 3
-            out.append({"row": rw, "block": blk, "kids": rtree(depth + 1) if blk and rnd.random() < 0.8 else []})
+            it = {"row": rw, "block": blk, "kids": rtree(depth + 1) if blk and rnd.random() < 0.8 else []}
+            if rw[0] in ("shutdown", "crypto"):          # commands of rules with a %context
+                it["block"], it["kids"] = False, []
+                it["ctx"] = rnd.choice([{}, {"kind": "lag"}, {"kind": "phys"}, {"kind": "svi"}, {"mode": "a"}, {"mode": "b", "kind": "phys"}])
+            out.append(it)
         return out
     for k in range(300 if quick else 6000):
         vend = rnd.choice(list(VENDORS))
